@@ -226,9 +226,11 @@ def skipQuoteLoop (quote : UInt8) (escaped : Bool) : Nat → St → Option St
     | (s, .other) => skipQuoteLoop quote escaped fuel s
 
 def skipQuote (o : Opts) (s : St) (quote : UInt8) : Option St :=
-  let prev := (s.input.drop (s.pos - 1)).head?
-  let escaped := o.backslashEscapes ||
-    (o.escapedStringExt && decide (s.pos > 0) && (prev == some 0x45 || prev == some 0x65))
+  -- repaired tree: the byte before the opening quote (s.input[s.pos-2]); the pinned commit looked at the quote itself
+  let prev := (s.input.drop (s.pos - 2)).head?
+  -- repaired tree: backslash is not an escape character in back-quoted identifiers
+  let escaped := (o.backslashEscapes && quote != 0x60) ||
+    (o.escapedStringExt && decide (s.pos > 1) && (prev == some 0x45 || prev == some 0x65))
   skipQuoteLoop quote escaped (s.input.length + 1) s
 
 /-- the closing loop of `skipDollarQuote`. -/
